@@ -10,6 +10,7 @@ var (
 	ErrWorkSpaceIsNotMining     = errors.New("non-mining workSpace")
 	ErrWorkSpaceIsNotStill      = errors.New("non-registered or non-ready workSpace")
 	ErrWorkSpaceCannotGenerate  = errors.New("not allowed to generate new workSpace")
+	ErrTooManyPendingRequests   = errors.New("too many pending plot/mine requests")
 
 	ErrMassDBWrongFileName        = errors.New("db file name not standard")
 	ErrMassDBDuplicate            = errors.New("db file duplicate in root dirs")
